@@ -390,6 +390,25 @@ func (env *SpecEnv) evalQuant(x *SExpr) *Val {
 		if t != nil && kindOf(t) == KBool {
 			sortS = "Bool"
 			v = boolVal(vn)
+		} else if t != nil && kindOf(t) == KStruct {
+			// struct-typed bound variable: one SMT variable per scalar leaf
+			var lvs []leaf
+			env.e.flatSorts(t, "", &lvs)
+			var terms []string
+			for j, lf := range lvs {
+				ln := fmt.Sprintf("%s!b%d_%d", name, env.e.s.n, j)
+				decls = append(decls, fmt.Sprintf("(%s %s)", ln, lf.sort))
+				bnames = append(bnames, ln)
+				terms = append(terms, ln)
+			}
+			env.e.s.n++
+			pos := 0
+			sv := env.e.unflatten(t, terms, &pos)
+			if g := env.e.wf(sv, "0"); g != "true" {
+				guards = append(guards, g)
+			}
+			n.bound[name] = sv
+			continue
 		} else if t != nil {
 			if kindOf(t) != KInt {
 				env.fail("quantifier over non-scalar type %s", x.VTyps[i])
@@ -998,6 +1017,25 @@ func (env *SpecEnv) evalCall(x *SExpr) *Val {
 				*env.facts = append(*env.facts, fmt.Sprintf("(<= 0 %s)", r))
 			}
 			return mathInt(r)
+		case "mk":
+			// mk(T, f1, f2, ...): a struct value of type T from its fields in declaration order
+			t := e.w.resolveType(env.pkg, args[0].String())
+			if t == nil {
+				env.fail("unknown type %s", args[0])
+			}
+			stt, ok := t.Underlying().(*types.Struct)
+			if !ok || stt.NumFields() != len(args)-1 {
+				env.fail("mk(%s): wrong number of fields", args[0])
+			}
+			sv := &Val{T: t, K: KStruct}
+			for i := 0; i < stt.NumFields(); i++ {
+				fv := env.eval(args[i+1])
+				c := *fv
+				c.T = stt.Field(i).Type()
+				c.Math = false
+				sv.F = append(sv.F, &c)
+			}
+			return sv
 		case "itersteps":
 			it := env.loopIter()
 			return mathInt(e.comp(env.cur, it.comp+"#steps", "Int"))
